@@ -290,6 +290,8 @@ func ruleC15(c *Ctx) {
 	c.rule("C15-R1", "names are constants: every element / attribute name given to the etree API in the three builders is a compile-time constant; no raw-XML sink (CreateCharData/Directive/ProcInst/AddChild of foreign trees) is used")
 	c.rule("C15-R2", "wiring table: each attribute and child of AuthnRequest / LogoutRequest / LogoutResponse is emitted exactly under its condition and carries exactly the named configuration field or argument")
 	c.rule("C15-R3", "instant: IssueInstant = Format(\"2006-01-02T15:04:05Z\") of sp.Clock.Now().UTC() (the literal Z makes .UTC() mandatory)")
+	c.rule("C15-R5", "signing keeps the built content (shared with C13-R1): the signed document's children are [Child[0], signature, Child[1:]...] of a copy — every child built under R1–R4 is present once, in order")
+	signPlacement(c, "C15-R5")
 	c.rule("C15-R4", "child order: the children created on the root form a subsequence of the SAML schema sequence; the returned document's root is the built element, or Sign*(element) exactly under the signing condition")
 	for _, ds := range docSpecs {
 		res := c.kernel(ds.Fn, builderInline...)
@@ -391,53 +393,8 @@ func ruleC13(c *Ctx) {
 	c.rule("C13-R2", "context configuration: on every creating path of SigningContext the algorithm is applied with SetSignatureMethod(sp.SignAuthnRequestsAlgorithm) and, when configured, the canonicalizer is stored, on the new context and before the write lock is released; the embedded certificate comes from the same key source as the signer")
 	c.rule("C13-R3", "single door: receivers of ConstructSignature / SignString / SignEnveloped are sp.SigningContext() results; signing contexts are constructed only inside SigningContext (positive control)")
 	c.rule("C13-R4", "decision-table agreement, role signing: key that signs vs certificate reported vs signing KeyDescriptor of both metadata functions, over all 12 valid key configurations")
-	var shapes []string
-	for _, fn := range []string{"(*SAMLServiceProvider).SignAuthnRequest", "(*SAMLServiceProvider).SignLogoutRequest", "(*SAMLServiceProvider).SignLogoutResponse"} {
-		res := c.kernel(fn, "*", "-(*SAMLServiceProvider).SigningContext")
-		if res == nil {
-			continue
-		}
-		fname := shortFn(res.Root)
-		for _, t := range res.Terms {
-			if !t.accepting(res.Root) {
-				continue
-			}
-			pos := c.P.InstrPos(t.Instr)
-			ret := "(*etree.Element).Copy($el)"
-			sig := "(*dsig.SigningContext).ConstructSignature((*SAMLServiceProvider).SigningContext(SP), $el, true)#0"
-			c.check(ap(t.Vals[0]) == ret, "C13-R1", fname, "returns a copy of the element", pos, ret, "returns "+ap(t.Vals[0]))
-			var childStore *Event
-			inserted := false
-			for _, e := range t.St.events {
-				if e.Kind == EvStore {
-					if fa, ok := e.Addr.(*FieldAddrV); ok && fa.Name == "Child" && ap(fa.X) == ret {
-						childStore = e
-					}
-				}
-				if e.Kind == EvCall && shortName(e.Callee) == "(*etree.Element).InsertChildAt" && ap(e.Args[0]) == ret && ap(e.Args[1]) == "1" && ap(e.Args[2]) == sig {
-					inserted = true
-				}
-			}
-			want := "append(append(append(nil; " + ret + ".Child[0]); " + sig + "); " + ret + ".Child[1:]...)"
-			got := ""
-			if childStore != nil {
-				got = ap(childStore.Val)
-			}
-			c.check(inserted || got == want, "C13-R1", fname, "signature inserted at child index 1 of the copy", pos, "[Child[0], sig, Child[1:]...]",
-				"signature placement is "+got+", want "+want+" (immediately after the Issuer)")
-			shapes = append(shapes, strings.ReplaceAll(got, "", ""))
-			sigOK, k := false, false
-			for _, e := range t.calls("(*dsig.SigningContext).ConstructSignature") {
-				sigOK, k = t.eqFact(e.Res[1], nilOf(nil))
-				c.check(ap(e.Args[2]) == "true", "C13-R1", fname, "enveloped signature", c.P.InstrPos(e.Instr), "enveloped=true", "ConstructSignature called with enveloped="+ap(e.Args[2]))
-			}
-			c.check(sigOK && k, "C13-R1", fname, "signature construction error checked", pos, "err == nil", "returns a signed element although ConstructSignature's error is not known nil")
-		}
-	}
-	same := len(shapes) == 3 && shapes[0] == shapes[1] && shapes[1] == shapes[2]
-	c.check(same, "C13-R1", "Sign*", "the three Sign* functions agree", "-", "identical placement", fmt.Sprintf("sibling Sign* functions place the signature differently: %v", shapes))
-	c.count("C13-R1/sign-functions", len(shapes))
-	c.floor("C13-R1/sign-functions", 3)
+	signPlacement(c, "C13-R1")
+	issuerFirst(c, "C13-R1")
 
 	// R2
 	sc := c.kernel("(*SAMLServiceProvider).SigningContext", "*")
@@ -1032,4 +989,152 @@ func ruleC16(c *Ctx) {
 	if fired == 0 {
 		c.bad("C16-R1", "controls/texttemplate", "positive control", "-", "matcher did not flag the control that renders with text/template")
 	}
+}
+
+// signPlacement (C13-R1, shared as C15-R5): each Sign* returns a copy whose children are exactly
+// [Child[0], signature, Child[1:]...] — the signature directly after the Issuer and every built child kept once, in order.
+func signPlacement(c *Ctx, rule string) {
+	var shapes []string
+	for _, fn := range []string{"(*SAMLServiceProvider).SignAuthnRequest", "(*SAMLServiceProvider).SignLogoutRequest", "(*SAMLServiceProvider).SignLogoutResponse"} {
+		res := c.kernel(fn, "*", "-(*SAMLServiceProvider).SigningContext")
+		if res == nil {
+			continue
+		}
+		fname := shortFn(res.Root)
+		for _, t := range res.Terms {
+			if !t.accepting(res.Root) {
+				continue
+			}
+			pos := c.P.InstrPos(t.Instr)
+			ret := "(*etree.Element).Copy($el)"
+			sig := "(*dsig.SigningContext).ConstructSignature((*SAMLServiceProvider).SigningContext(SP), $el, true)#0"
+			c.check(ap(t.Vals[0]) == ret, rule, fname, "returns a copy of the element", pos, ret, "returns "+ap(t.Vals[0]))
+			var childStore *Event
+			inserted := false
+			for _, e := range t.St.events {
+				if e.Kind == EvStore {
+					if fa, ok := e.Addr.(*FieldAddrV); ok && fa.Name == "Child" && ap(fa.X) == ret {
+						childStore = e
+					}
+				}
+				if e.Kind == EvCall && shortName(e.Callee) == "(*etree.Element).InsertChildAt" && ap(e.Args[0]) == ret && ap(e.Args[1]) == "1" && ap(e.Args[2]) == sig {
+					inserted = true
+				}
+			}
+			want := ret + ".Child[0] , " + sig + " , " + ret + ".Child[1:]..."
+			got := ""
+			if childStore != nil {
+				got = strings.Join(seqSegments(t, childStore.Val), " , ")
+			}
+			c.check(inserted || got == want, rule, fname, "signature inserted at child index 1 of the copy", pos, "[Child[0], sig, Child[1:]...]",
+				"signature placement is ["+got+"], want ["+want+"] (immediately after the Issuer, every other child kept)")
+			shapes = append(shapes, strings.ReplaceAll(got, "", ""))
+			sigOK, k := false, false
+			for _, e := range t.calls("(*dsig.SigningContext).ConstructSignature") {
+				sigOK, k = t.eqFact(e.Res[1], nilOf(nil))
+				c.check(ap(e.Args[2]) == "true", rule, fname, "enveloped signature", c.P.InstrPos(e.Instr), "enveloped=true", "ConstructSignature called with enveloped="+ap(e.Args[2]))
+			}
+			c.check(sigOK && k, rule, fname, "signature construction error checked", pos, "err == nil", "returns a signed element although ConstructSignature's error is not known nil")
+		}
+	}
+	same := len(shapes) == 3 && shapes[0] == shapes[1] && shapes[1] == shapes[2]
+	c.check(same, rule, "Sign*", "the three Sign* functions agree", "-", "identical placement", fmt.Sprintf("sibling Sign* functions place the signature differently: %v", shapes))
+	c.count(rule+"/sign-functions", len(shapes))
+	c.floor(rule+"/sign-functions", 3)
+
+}
+
+// seqSegments renders a slice value assembled by append chains / slice literals / re-slicing as its ordered segments:
+// single elements and spreads "X[lo:hi]...". X[:1] of a slice is the single element X[0]. Anything else is one opaque
+// segment, so two assemblies of the same sequence compare equal whatever the statements that built them.
+func seqSegments(t *Terminal, v Val) []string {
+	switch x := v.(type) {
+	case *ConstV:
+		if isNilConst(x) {
+			return nil
+		}
+	case *AppendV:
+		out := seqSegments(t, x.S)
+		if x.Spread {
+			for _, e := range x.Elems {
+				out = append(out, seqSegments(t, e)...)
+			}
+			return out
+		}
+		for _, e := range x.Elems {
+			out = append(out, ap(stripIface(e)))
+		}
+		return out
+	case *SliceV:
+		// slice literal: X[:] over a fresh array whose elements are in the heap
+		if a, ok := x.X.(*AllocV); ok && x.Lo == nil && x.Hi == nil {
+			if p, ok := a.Type().Underlying().(*types.Pointer); ok {
+				if arr, ok := p.Elem().Underlying().(*types.Array); ok && arr.Len() <= 16 {
+					var out []string
+					for i := int64(0); i < arr.Len(); i++ {
+						cl, ok := t.St.heap[mkIndexAddr(a, intV(i), nil).Key()]
+						if !ok {
+							return []string{ap(v) + "..."}
+						}
+						out = append(out, ap(stripIface(cl.val)))
+					}
+					return out
+				}
+			}
+		}
+		lo, hi := int64(0), int64(-1)
+		if x.Lo != nil {
+			if k, ok := constInt(x.Lo); ok {
+				lo = k
+			} else {
+				return []string{ap(v) + "..."}
+			}
+		}
+		if x.Hi != nil {
+			if k, ok := constInt(x.Hi); ok {
+				hi = k
+			} else {
+				return []string{ap(v) + "..."}
+			}
+		}
+		if hi >= 0 && hi-lo <= 8 {
+			var out []string
+			for i := lo; i < hi; i++ {
+				out = append(out, fmt.Sprintf("%s[%d]", ap(x.X), i))
+			}
+			return out
+		}
+	}
+	return []string{ap(v) + "..."}
+}
+
+// issuerFirst (shared with C15-R4): on every accepting path of the three builders the first child created on the root
+// is saml:Issuer, unconditionally — Sign* inserts the signature at index 1, i.e. "immediately after the Issuer"
+// only if the Issuer is always there.
+func issuerFirst(c *Ctx, rule string) {
+	n := 0
+	for _, ds := range docSpecs {
+		res := c.kernel(ds.Fn, builderInline...)
+		if res == nil {
+			continue
+		}
+		fname := shortFn(res.Root)
+		for _, t := range res.Terms {
+			if !t.accepting(res.Root) {
+				continue
+			}
+			root, _ := docModel(t)
+			if root == nil {
+				continue
+			}
+			n++
+			first := ""
+			if len(root.Children) > 0 {
+				first = root.Children[0].tagString()
+			}
+			c.check(first == "saml:Issuer", rule, fname, "Issuer is the first child on every path", c.P.InstrPos(t.Instr), "saml:Issuer first (the signature is inserted at index 1)", "first child built is "+first+": the signature inserted at index 1 does not follow an Issuer")
+		}
+	}
+	c.count(rule+"/builder-paths", n)
+	c.floor(rule+"/builder-paths", 3)
 }
